@@ -176,8 +176,7 @@ def make_record(rec_id, st_json, comps, space, rew=None, term=None, actions=None
 
         def one(rng):
             if env is not None:
-                gridworld_mod.make_rng = lambda seed=None: rng
-                env.set_seed(0)
+                rngtools.install_rng(env, rng)
                 return env.functional_step(state, action)
             nxt = transition_with_copy(tf, state, action, rng=rng)
             r = rf(state, action, nxt) if rf is not None else 0.0
@@ -219,14 +218,12 @@ def make_record(rec_id, st_json, comps, space, rew=None, term=None, actions=None
         same = outcome == 'ok' and len(support) == 1 and support[0] == canon_st
         acts.append({'a': aname, 'outcome': outcome, 'full': full, 'same': same, 'support': [] if same else support, 'r': rs,
                      'rtype': rtypes, 'rfinite': rfin, 'rexact': rex, 'done': dones, 'dtype': dtypes})
-    gridworld_mod.make_rng = _ORIG_MAKE_RNG
     mutated = proj.state_to_json(state) != _canon(st_json)
     return {'id': rec_id, 'want': list(want) if want is not None else ['C01', 'C08', 'C09', 'C10', 'C11', 'C12', 'DRIFT'], 'fam': fam, 'fi': fi, 'fsize': fsize, 'k': k, 'space': space,
             'comps': comps, 'rew': [] if rew is None else [rew], 'term': [] if term is None else [term],
             'st': st_json, 'acts': acts, 'mutated': mutated}
 
 
-_ORIG_MAKE_RNG = gridworld_mod.make_rng
 
 
 def _canon(j):
